@@ -149,6 +149,8 @@ var jScalars = []func() *jval{
 	func() *jval { return jstr(`b\s`) }, func() *jval { return jnum("7") }, func() *jval { return jnum("-1") }, func() *jval { return jnum("1.5") },
 	func() *jval { return &jval{K: "bool", B: true} }, func() *jval { return &jval{K: "bool", B: false} }, func() *jval { return &jval{K: "null"} },
 	func() *jval { return jnum("0") }, func() *jval { return jstr("10s") },
+	// integers a float64 cannot hold exactly: the label is the number as written
+	func() *jval { return jnum("1700000000123456789") }, func() *jval { return jnum("9007199254740993") },
 }
 
 func genJval(r *rand.Rand, depth int) *jval {
@@ -475,6 +477,17 @@ func genRewrite(r *rand.Rand) logqIn {
 			st.Labels = IntsList{B("a")}
 		}
 		in.Stages = []stageIn{st}
+		if r.Intn(3) == 0 {
+			// two or three stages of the same kind in a row: each works on what the previous one left
+			// (keep after keep leaves the intersection, drop after drop the complement of the union)
+			for k := 1 + r.Intn(2); k > 0; k-- {
+				st2 := stageIn{T: st.T, Labels: IntsList{}}
+				for m := 1 + r.Intn(2); m > 0; m-- {
+					st2.Labels = append(st2.Labels, B(pick(r, append(names, "msg"))))
+				}
+				in.Stages = append(in.Stages, st2)
+			}
+		}
 	default:
 		in.Stages = []stageIn{{T: "decolorize"}}
 	}
